@@ -314,7 +314,7 @@ func Run(t *testing.T, sc *Scenario) *History {
 
 // stallProbe is how often the watchdog looks at a bubble that has not
 // reported back (a scenario takes about a millisecond).
-const stallProbe = 8 * time.Second
+const stallProbe = 4 * time.Second
 
 var goroutineHead = regexp.MustCompile(`^goroutine (\d+) \[([^\]]*)\]`)
 
